@@ -37,6 +37,7 @@ type Contract struct {
 	Modifies     []string
 	HasMod       bool
 	NoPanic      bool
+	Unreachable  map[int]Clause // `unreachable panic <k> label [Cxx ...]`: explicit panic ordinal -> label (+ property scope)
 	Pure         bool
 	Trusted      bool // contract is assumed, body not verified (must be listed as assumption)
 	Inline       bool
@@ -220,6 +221,20 @@ func (cs *ContractSet) parseFile(root, file string) error {
 				cur.Trusted = true
 			case "inline":
 				cur.Inline = true
+			case "unreachable":
+				// unreachable panic <k> <label> [<property> ...]
+				f := strings.Fields(rest)
+				if len(f) < 3 || f[0] != "panic" {
+					return fmt.Errorf("%s:%d: bad unreachable directive (unreachable panic <k> <label> [Cxx ...])", file, d.line)
+				}
+				k, err := strconv.Atoi(f[1])
+				if err != nil {
+					return fmt.Errorf("%s:%d: bad panic ordinal", file, d.line)
+				}
+				if cur.Unreachable == nil {
+					cur.Unreachable = map[int]Clause{}
+				}
+				cur.Unreachable[k] = Clause{Label: f[2], Props: f[3:], Line: d.line, File: file}
 			case "opt":
 				kv := strings.SplitN(rest, "=", 2)
 				if len(kv) == 2 {
